@@ -278,6 +278,42 @@ def has_plain_fallback(t):
     return False
 
 
+def plain_fallback_kind(t):
+    """'lazy' when the plain load of the user name sits where it is evaluated only if needed (a branch
+    of a conditional expression, a later operand of and/or), 'eager' when it is evaluated every time
+    (an argument of a call such as DICT.get(name, <plain name>)), None when there is none."""
+    found = []
+
+    def walk(v, cond):
+        if isinstance(v, TNode):
+            if v.kind == "Name" and isinstance(v.fields.get("id"), UPrim):
+                found.append("lazy" if cond else "eager")
+                return
+            if v.kind == "IfExp":
+                walk(v.fields.get("test"), cond)
+                walk(v.fields.get("body"), True)
+                walk(v.fields.get("orelse"), True)
+                return
+            if v.kind == "BoolOp":
+                vals = v.fields.get("values")
+                for i, o in enumerate(vals.items if isinstance(vals, PList) else []):
+                    walk(o, cond or i > 0)
+                return
+            if v.kind == "Lambda":
+                walk(v.fields.get("body"), True)
+                return
+            for x in v.fields.values():
+                walk(x, cond)
+        elif isinstance(v, PList):
+            for i in v.items:
+                walk(i, cond)
+
+    walk(t, False)
+    if not found:
+        return None
+    return "eager" if "eager" in found else "lazy"
+
+
 def _match(pr, assignment):
     for k, v in pr.assign.items():
         if k in assignment and assignment[k] != v:
@@ -928,7 +964,13 @@ def rule_r5(ctx):
             if storage_of(pr.result) == ("classdict",):
                 rr.instances += 1
                 what = f"{ci.name}|classdict-load"
-                if has_plain_fallback(pr.result):
+                if has_plain_fallback(pr.result) and plain_fallback_kind(pr.result) == "eager":
+                    rr.fail(
+                        f"C06-R5|{ci.name}|classdict-load|eager-fallback",
+                        f"{ci.name}.get_load_name: the fallback to the plain name is evaluated on EVERY read, also when the class body has bound the member (an argument of a call such as `DICT.get(name, <plain name>)`): when no global of that name exists (yet) the read raises NameError although the member is there; the fallback has to be lazy (`DICT[name] if name in DICT else <plain name>`)",
+                        where=ci.module.rel, what=what,
+                    )
+                elif has_plain_fallback(pr.result):
                     rr.ok(what)
                 else:
                     rr.fail(
